@@ -80,7 +80,7 @@ theorem kick_sim {mp ms bs : Bool} (botKey key : Str) (ts : List Str) :
     ∀ (sc : SChan) (ch : Chan) (b : Bot), lower b.nick = botKey → aget b.channels key = some ch →
       ChanMatches mp ms bs sc ch → sc.has botKey = true →
       let b' := b.kickLoop key (kickTargets sc ts).2
-      b'.nick = b.nick ∧ b'.pfx = b.pfx ∧ b'.n2h = b.n2h ∧ b'.cfgNick = b.cfgNick ∧ b'.cfgIdent = b.cfgIdent ∧
+      b'.nick = b.nick ∧ b'.pfx = b.pfx ∧ b'.n2h = b.n2h ∧ b'.cfgNick = b.cfgNick ∧ b'.cfgIdent = b.cfgIdent ∧ b'.isup = b.isup ∧
       (∀ k, k ≠ key → aget b'.channels k = aget b.channels k) ∧
       (match aget b'.channels key with
         | none => (kickTargets sc ts).1.has botKey = false
@@ -89,7 +89,7 @@ theorem kick_sim {mp ms bs : Bool} (botKey key : Str) (ts : List Str) :
   | nil =>
     intro sc ch b _ hch hm hb
     simp only [kickTargets, Bot.kickLoop, hch]
-    exact ⟨trivial, trivial, trivial, trivial, trivial, fun _ _ => trivial, hb, hm⟩
+    exact ⟨trivial, trivial, trivial, trivial, trivial, trivial, fun _ _ => trivial, hb, hm⟩
   | cons t ts ih =>
     intro sc ch b hbk hch hm hb
     unfold kickTargets
@@ -99,7 +99,7 @@ theorem kick_sim {mp ms bs : Bool} (botKey key : Str) (ts : List Str) :
       · have hk : lower t = botKey := by
           simp only [strEqual, decide_eq_true_eq] at hself; rw [hself, hbk]
         simp only [hself, ↓reduceIte, aget_adel_self]
-        refine ⟨trivial, trivial, trivial, trivial, trivial, fun k hk' => by rw [aget_adel]; simp [Ne.symm hk'], ?_⟩
+        refine ⟨trivial, trivial, trivial, trivial, trivial, trivial, fun k hk' => by rw [aget_adel]; simp [Ne.symm hk'], ?_⟩
         rw [← Bool.not_eq_true]
         intro hcon
         have := kickTargets_has hcon
@@ -111,9 +111,9 @@ theorem kick_sim {mp ms bs : Bool} (botKey key : Str) (ts : List Str) :
         have hch1 : aget (amod b.channels key (fun c => c.removeUser t)) key = some (ch.removeUser t) := by
           rw [aget_amod]; simp [hch]
         have hb1 : (sc.remove (lower t)).has botKey = true := has_remove.mpr ⟨fun e => hk e.symm, hb⟩
-        obtain ⟨h1, h2, h3, h4, h5, h6, h7⟩ := ih (sc.remove (lower t)) (ch.removeUser t)
+        obtain ⟨h1, h2, h3, h4, h5, hs, h6, h7⟩ := ih (sc.remove (lower t)) (ch.removeUser t)
           { b with channels := amod b.channels key (fun c => c.removeUser t) } hbk hch1 (chanMatches_remove hm t) hb1
-        refine ⟨h1, h2, h3, h4, h5, ?_, h7⟩
+        refine ⟨h1, h2, h3, h4, h5, hs, ?_, h7⟩
         intro k hk'
         rw [h6 k hk']
         show aget (amod b.channels key (fun c => c.removeUser t)) k = _
@@ -200,8 +200,8 @@ theorem coupled_kick {s : Srv} {b : Bot} (hw : SrvWF s) (hc : Coupled s b) (src 
               · intro t ht; exact nick_noComma_of_valid (hvalid t (kickTargets_sub ts sc t ht))
             simp only [Bot.stateCmd, cmdOf_KICK, Bot.doKick, hchan, hcw.key, hsplit]
             have hbk : lower b0.nick = s.botKey := by rw [hc0.nick]; rfl
-            obtain ⟨h1, h2, h3, h4, h5, h6, h7⟩ := kick_sim s.botKey (lower c) ts sc ch b0 hbk hbc hrel0.2 hrel0.1
-            refine coupled_update' hc0 (lower c) (putChan_users _ _ _) (putChan_bot _ _ _) (putChan_cfg _ _ _) (putChan_ms _ _ _) (putChan_bs _ _ _) (putChan_told _ _ _) ?_ h6 ?_ h1 h4 h5 h3 h2 ?_ ?_
+            obtain ⟨h1, h2, h3, h4, h5, hs, h6, h7⟩ := kick_sim s.botKey (lower c) ts sc ch b0 hbk hbc hrel0.2 hrel0.1
+            refine coupled_update' hc0 (lower c) (putChan_users _ _ _) (putChan_bot _ _ _) (putChan_cfg _ _ _) (putChan_ms _ _ _) (putChan_bs _ _ _) (putChan_told _ _ _) ?_ h6 ?_ h1 h4 h5 hs h3 h2 ?_ ?_
             · intro k hk; rw [putChan_get]; simp [Ne.symm hk]
             · rw [putChan_get]
               simp only [↓reduceIte]
@@ -226,7 +226,7 @@ theorem coupled_kick {s : Srv} {b : Bot} (hw : SrvWF s) (hc : Coupled s b) (src 
             · intro sc' h0; rw [hch] at h0; cases h0
         · simp only [hb, Bool.false_eq_true, ↓reduceIte, recvAll_nil]
           have hb' : sc.has s.botKey = false := by simpa [Srv.botIn] using hb
-          refine coupled_update' hc (lower c) (putChan_users _ _ _) (putChan_bot _ _ _) (putChan_cfg _ _ _) (putChan_ms _ _ _) (putChan_bs _ _ _) (putChan_told _ _ _) ?_ (fun _ _ => rfl) ?_ rfl rfl rfl rfl rfl ?_ ?_
+          refine coupled_update' hc (lower c) (putChan_users _ _ _) (putChan_bot _ _ _) (putChan_cfg _ _ _) (putChan_ms _ _ _) (putChan_bs _ _ _) (putChan_told _ _ _) ?_ (fun _ _ => rfl) ?_ rfl rfl rfl rfl rfl rfl ?_ ?_
           · intro k hk; rw [putChan_get]; simp [Ne.symm hk]
           · rw [putChan_get]
             simp only [↓reduceIte]
@@ -256,11 +256,11 @@ theorem coupled_kick {s : Srv} {b : Bot} (hw : SrvWF s) (hc : Coupled s b) (src 
 theorem partOne_fields (nick : Str) (b : Bot) (name : Str) :
     (Bot.partOne nick b name).nick = b.nick ∧ (Bot.partOne nick b name).pfx = b.pfx ∧
     (Bot.partOne nick b name).n2h = b.n2h ∧ (Bot.partOne nick b name).cfgNick = b.cfgNick ∧
-    (Bot.partOne nick b name).cfgIdent = b.cfgIdent := by
+    (Bot.partOne nick b name).cfgIdent = b.cfgIdent ∧ (Bot.partOne nick b name).isup = b.isup := by
   unfold Bot.partOne
   split
-  · exact ⟨rfl, rfl, rfl, rfl, rfl⟩
-  · split <;> exact ⟨rfl, rfl, rfl, rfl, rfl⟩
+  · exact ⟨rfl, rfl, rfl, rfl, rfl, rfl⟩
+  · split <;> exact ⟨rfl, rfl, rfl, rfl, rfl, rfl⟩
 
 theorem chan_noComma_of_valid {c : Str} (h : validChan c = true) : ',' ∉ c := (chanOK_of_valid h).noComma
 
@@ -287,11 +287,11 @@ theorem leave_sim (k nick : Str) (hk : lower nick = k) (cs : List Str) :
         have hnd' := putChan_nodup hw.chansNodup (lower c) (sc.remove k)
         have hgen : ∀ (b1 : Bot), (∀ k', k' ≠ lower c → aget b1.channels k' = aget b.channels k') →
             ChanRel (s.putChan (lower c) (sc.remove k)) (lower c) (aget (s.putChan (lower c) (sc.remove k)).chans (lower c)) (aget b1.channels (lower c)) →
-            b1.nick = b.nick → b1.cfgNick = b.cfgNick → b1.cfgIdent = b.cfgIdent → b1.n2h = b.n2h → b1.pfx = b.pfx →
+            b1.nick = b.nick → b1.cfgNick = b.cfgNick → b1.cfgIdent = b.cfgIdent → b1.isup = b.isup → b1.n2h = b.n2h → b1.pfx = b.pfx →
             Coupled (s.putChan (lower c) (sc.remove k)) b1 := by
-          intro b1 h1 h2 h3 h4 h5 h6 h7
+          intro b1 h1 h2 h3 h4 h5 hs h6 h7
           refine coupled_update' hc (lower c) (putChan_users _ _ _) (putChan_bot _ _ _) (putChan_cfg _ _ _) (putChan_ms _ _ _) (putChan_bs _ _ _) (putChan_told _ _ _)
-            ?_ h1 h2 h3 h4 h5 h6 h7 ?_ ?_
+            ?_ h1 h2 h3 h4 h5 hs h6 h7 ?_ ?_
           · intro k' hk'; rw [putChan_get]; simp [Ne.symm hk']
           · intro sc0 sc' h0 h' hb'
             rw [hch] at h0; cases h0
@@ -358,7 +358,7 @@ theorem leave_sim (k nick : Str) (hk : lower nick = k) (cs : List Str) :
             | none => rfl
             | some ch => rw [hbc] at hrel; simp only [ChanRel] at hrel; rw [hb'] at hrel; exact absurd hrel.1 (by simp)
           have hcoup : Coupled (s.putChan (lower c) (sc.remove k)) b := by
-            apply hgen b (fun _ _ => rfl) _ rfl rfl rfl rfl rfl
+            apply hgen b (fun _ _ => rfl) _ rfl rfl rfl rfl rfl rfl
             rw [hbn, putChan_get]
             simp only [↓reduceIte]
             split
